@@ -30,6 +30,13 @@ Proof.
   lia.
 Qed.
 
+Lemma flat_map_ext_in' {A B} (f g : A -> list B) l :
+  (forall a, In a l -> f a = g a) -> flat_map f l = flat_map g l.
+Proof.
+  induction l as [|x r IH]; cbn; intros H; [reflexivity|].
+  rewrite (H x (or_introl eq_refl)), IH; auto.
+Qed.
+
 (* ------------------------------------------------------------------ *)
 (* association-list maps: [insert] keeps at most one binding per key *)
 
